@@ -95,10 +95,20 @@ pub fn attr_split(input: &str) -> impl Iterator<Item = String> + '_ {
 }
 
 pub fn extract_urlref(input: &str) -> Option<ElRef> {
+    // url(#id), also written url('#id') or url("#id"), with blanks inside the parentheses
     input
         .trim()
-        .strip_prefix("url(#")
+        .strip_prefix("url(")
         .and_then(|s| s.strip_suffix(')'))
+        .map(|s| s.trim())
+        .map(|s| {
+            s.strip_prefix('\'')
+                .and_then(|s| s.strip_suffix('\''))
+                .or(s.strip_prefix('"').and_then(|s| s.strip_suffix('"')))
+                .unwrap_or(s)
+        })
+        .and_then(|s| s.strip_prefix('#'))
+        .filter(|id| !id.is_empty())
         .map(|id| ElRef::Id(id.to_string()))
 }
 
